@@ -1,3 +1,8 @@
+mod algo;
+mod gens;
+mod algo2;
+mod watchdog;
+mod cases;
 mod model;
 mod mutgen;
 mod query;
@@ -37,6 +42,15 @@ fn main() {
     let (cmd, m) = args_map();
     match cmd.as_str() {
         "mut" => cmd_mut(&m),
+        "observe" => cmd_observe(&m),
+        "worker" => cmd_worker(),
+        "gens" => {
+            let file = std::fs::File::create(m.get("out").expect("--out")).expect("create out");
+            let mut em = mutgen::Emitter::new(BufWriter::new(file));
+            gens::gnp_events(&mut em, geti(&m, "nmax", 40) as i32, geti(&m, "seeds", 400) as u64, geti(&m, "thorough", 0) == 1, geti(&m, "seed", 0) as u64);
+            println!("{{\"events\":{}}}", em.next_id - 1);
+        }
+        "gen-cases" => cmd_gen_cases(&m),
         "replay-mut" => cmd_replay_mut(&m),
         "replay-walks" => println!("{}", walks::replay_walks(m.get("in").expect("--in"), m.get("out").expect("--out"))),
         _ => {
@@ -69,16 +83,21 @@ fn cmd_mut(m: &HashMap<String, String>) {
     let rlen = geti(m, "rlen", 12) as usize;
     let rq = geti(m, "rq", 0) as usize;
     let with_snap = geti(m, "snap", 1) == 1;
+    let derive = geti(m, "derive", 0) == 1;
     let seed = geti(m, "seed", 0) as u64;
     let file = std::fs::File::create(out).expect("create out");
     let mut em = mutgen::Emitter::new(BufWriter::new(file));
     for (i, specs) in all.iter().enumerate().take(to).skip(from) {
         let mut rng = ChaCha8Rng::seed_from_u64(seed.wrapping_mul(1000).wrapping_add(i as u64));
         for (k, depth, qdepth) in &ex {
-            let mut cx = mutgen::Ctx { em: &mut em, specs: *specs, universe: (1..=*k + 1).collect(), with_snap };
-            mutgen::exhaustive(&mut cx, *k, *depth, *qdepth);
+            let mut cx = mutgen::Ctx { derive, em: &mut em, specs: *specs, universe: (1..=*k + 1).collect(), with_snap };
+            if derive {
+                mutgen::exhaustive_derive(&mut cx, *k, *depth, *qdepth);
+            } else {
+                mutgen::exhaustive(&mut cx, *k, *depth, *qdepth);
+            }
         }
-        let mut cx = mutgen::Ctx { em: &mut em, specs: *specs, universe: (1..=rk + 1).collect(), with_snap };
+        let mut cx = mutgen::Ctx { derive, em: &mut em, specs: *specs, universe: (1..=rk + 1).collect(), with_snap };
         mutgen::random_histories(&mut cx, &mut rng, nrandom, rk, rlen, rq);
     }
     let counts: Vec<String> = em.counts.iter().map(|(k, v)| format!("\"{}\":{}", k, v)).collect();
@@ -92,7 +111,8 @@ fn cmd_replay_mut(m: &HashMap<String, String>) {
     let mut em = mutgen::Emitter::new(BufWriter::new(file));
     let ops = r["ops"].as_array().unwrap();
     let specs = if ops[0]["k"] == "new_from" { SpecsJ::from_json(&ops[0]["specs"]) } else { SpecsJ::from_json(&r["specs"]) };
-    let mut cx = mutgen::Ctx { em: &mut em, specs, universe: (1..=6).collect(), with_snap: true };
+    let derive = false;
+    let mut cx = mutgen::Ctx { derive, em: &mut em, specs, universe: (1..=6).collect(), with_snap: true };
     let mut path: Vec<Op> = vec![];
     let mut parent;
     if ops[0]["k"] == "new_from" {
@@ -126,4 +146,87 @@ fn cmd_replay_mut(m: &HashMap<String, String>) {
         parent = id;
     }
     cx.query(parent, &path);
+}
+
+/// gv observe --suite S --grid G --in cases.ndjson --out obs.ndjson
+fn cmd_observe(m: &HashMap<String, String>) {
+    use std::io::BufRead;
+    let suite = m.get("suite").expect("--suite");
+    let grid = geti(m, "grid", 0) as u8;
+    let f = std::io::BufReader::new(std::fs::File::open(m.get("in").expect("--in")).expect("open cases"));
+    let file = std::fs::File::create(m.get("out").expect("--out")).expect("create out");
+    let mut em = mutgen::Emitter::new(BufWriter::new(file));
+    let mut pool = watchdog::Pool::new();
+    for line in f.lines() {
+        let line = line.unwrap();
+        if line.trim().is_empty() {
+            continue;
+        }
+        let case: serde_json::Value = serde_json::from_str(&line).expect("case json");
+        algo::observe(&mut em, suite, grid, &case, &mut pool);
+    }
+    println!("{{\"events\":{},\"child_calls\":{},\"hangs\":{},\"aborts\":{}}}", em.next_id - 1, pool.calls, pool.hangs, pool.aborts);
+}
+
+/// gv worker: executes one request per stdin line in this (expendable) process
+fn cmd_worker() {
+    use std::io::{BufRead, Write};
+    let stdin = std::io::stdin();
+    let stdout = std::io::stdout();
+    for line in stdin.lock().lines() {
+        let line = match line { Ok(l) => l, Err(_) => break };
+        let req: serde_json::Value = match serde_json::from_str(&line) { Ok(v) => v, Err(_) => continue };
+        let out = algo::guarded(|| {
+            let case = &req["case"];
+            let specs = SpecsJ::from_json(&case["specs"]);
+            let ops: Vec<Op> = case["ops"].as_array().unwrap().iter().map(Op::from_json).collect();
+            let g = build(specs, &ops);
+            match req["call"]["kind"].as_str().unwrap() {
+                "louvain" => algo2::louvain_call(&g, &req["call"]["args"]),
+                k => serde_json::json!({"e": "UnknownCall", "v": [], "kind": k}),
+            }
+        });
+        let mut o = stdout.lock();
+        writeln!(o, "{}", out).unwrap();
+        o.flush().unwrap();
+    }
+}
+
+/// gv gen-cases --kind random|dups --n N --minn A --maxn B --seed S --out F [--zero 1]
+fn cmd_gen_cases(m: &HashMap<String, String>) {
+    use rand::Rng;
+    use std::io::Write;
+    let kind = m.get("kind").map(|s| s.as_str()).unwrap_or("random");
+    let n = geti(m, "n", 100) as usize;
+    let minn = geti(m, "minn", 2) as i32;
+    let maxn = geti(m, "maxn", 6) as i32;
+    let zero = geti(m, "zero", 0) == 1;
+    let cubes = geti(m, "cubes", 0) == 1;
+    let mut rng = ChaCha8Rng::seed_from_u64(geti(m, "seed", 0) as u64);
+    let mut out = BufWriter::new(std::fs::File::create(m.get("out").expect("--out")).expect("create out"));
+    let kinds = SpecsJ::kinds();
+    let all = SpecsJ::all();
+    for i in 0..n {
+        let case = match kind {
+            "dups" => {
+                let specs = all[rng.gen_range(0..all.len())];
+                let specs = SpecsJ { missing: 0, ..specs };
+                let k = rng.gen_range(2..=maxn);
+                let len = rng.gen_range(3..=14);
+                cases::case_json(specs, &cases::random_dup_history(&mut rng, k, len), "dups")
+            }
+            _ => {
+                let specs = kinds[i % kinds.len()];
+                let nn = rng.gen_range(minn..=maxn);
+                let p = [0.15, 0.3, 0.5, 0.8][rng.gen_range(0..4)];
+                let weights: Vec<i64> = match rng.gen_range(0..3) {
+                    0 => vec![],
+                    1 => if cubes { vec![1, 8, 27] } else { vec![1, 2, 3] },
+                    _ => if cubes { vec![1, 1, 8] } else if zero { vec![0, 1, 2] } else { vec![1, 1, 2, 4] },
+                };
+                cases::case_json(specs, &cases::random_graph(&mut rng, specs, nn, p, &weights), "random")
+            }
+        };
+        writeln!(out, "{}", case).unwrap();
+    }
 }
